@@ -228,10 +228,19 @@ LcaAccepts(T, bag, E, c, v) ==
 
 (* Taxonomy.TaxonomicDistribution AS WRITTEN: when two ids of the bag mean the same taxon (a merged id and its   *)
 (* new id) the weight of one of them replaces the weight of the other instead of being added to it: the bag the  *)
-(* code sees is the bag without one of the two entries (which one: hash order)                                   *)
-RemoveAt(bag, i) == SubSeq(bag, 1, i - 1) \o SubSeq(bag, i + 1, Len(bag))
-DropOne(T, bag)  == { RemoveAt(bag, i) : i \in { i \in 1..Len(bag) :
-                         \E j \in 1..Len(bag) : j # i /\ Resolve(T, bag[j][1]) = Resolve(T, bag[i][1]) } }
+(* code sees keeps one entry per taxon meant (which one: hash order)                                              *)
+HasSynonyms(T, bag) == \E i, j \in 1..Len(bag) : i # j /\ Resolve(T, bag[i][1]) = Resolve(T, bag[j][1])
+SubBag(bag, I)      == [k \in 1..Cardinality(I) |-> bag[CHOOSE i \in I : Cardinality({ j \in I : j < i }) = k - 1]]
+SeenBags(T, bag)    ==          \* one entry kept for every taxon meant
+  { SubBag(bag, I) : I \in { I \in SUBSET (1..Len(bag)) :
+        \A i \in 1..Len(bag) : Cardinality({ j \in I : Resolve(T, bag[j][1]) = Resolve(T, bag[i][1]) }) = 1 } }
+
+(* the attribute names of the record written; a record that had a plain taxid is also given the bag     *)
+(* merged_taxid = {taxid: 1}: accepted, not demanded                                                     *)
+LcaKeySets(slot, r) ==
+  LET K == LcaKeys(slot)
+      want == {K.taxid, K.name, K.error} \cup (IF r.astaxid THEN {"taxid"} ELSE {"merged_taxid"})
+  IN IF r.astaxid THEN {want, want \cup {"merged_taxid"}} ELSE {want}
 
 IndexOf(ks, key) == IF \E j \in 1..Len(ks) : ks[j] = key THEN CHOOSE j \in 1..Len(ks) : ks[j] = key ELSE 0
 
@@ -244,15 +253,13 @@ LcaRecVerdict(T, slot, E, r, o) ==
       je == IndexOf(o.fk, K.error)   jz == IndexOf(o.ik, K.error)           \* an error of 0 or 1 is written as an integer
       v  == IF je # 0 THEN o.fv[je] ELSE IF jz # 0 THEN 1000 * o.iv[jz] ELSE -1
       keys == RngF(o.ik) \cup RngF(o.sk) \cup RngF(o.fk) \cup RngF(o.mk)
-      \* a record that had a plain taxid is also given the bag merged_taxid = {taxid: 1}: accepted, not demanded
-      want == {K.taxid, K.name, K.error} \cup (IF r.astaxid THEN {"taxid"} ELSE {"merged_taxid"})
-      okkeys == keys = want \/ (r.astaxid /\ keys = want \cup {"merged_taxid"})
+      okkeys == keys \in LcaKeySets(slot, r)
   IN IF o.n # 1 THEN "record lost or duplicated"
      ELSE IF ~okkeys \/ Len(o.ik) + Len(o.sk) + Len(o.fk) + Len(o.mk) # Cardinality(keys) THEN "attribute names"
      ELSE IF jt = 0 \/ jn = 0 \/ v < 0 THEN "attribute names"
      ELSE IF o.iv[jt] \notin Node(T) THEN "lca"
      ELSE IF ~LcaAccepts(T, r.bag, E, o.iv[jt], v) THEN
-             (IF \E b \in DropOne(T, r.bag) : LcaAccepts(T, b, E, o.iv[jt], v) THEN "known:lca_synonym_weight_lost" ELSE "lca")
+             (IF HasSynonyms(T, r.bag) /\ \E b \in SeenBags(T, r.bag) : LcaAccepts(T, b, E, o.iv[jt], v) THEN "known:lca_synonym_weight_lost" ELSE "lca")
      ELSE IF o.sv[jn] # T.name[o.iv[jt]] THEN "lca name"
      ELSE IF r.astaxid /\ K.taxid # "taxid" /\ (IndexOf(o.ik, "taxid") = 0 \/ o.iv[IndexOf(o.ik, "taxid")] # r.bag[1][1]) THEN "taxid changed"
      ELSE "ok"
